@@ -89,3 +89,80 @@ pub fn clone_reentered(mode: u8) {
 harness! { fn c11b_panic_clone_outer_mut_same_column() unwind(4) { clone_reentered(0) } }
 harness! { fn c11b_panic_clone_outer_mut_other_column() unwind(4) { clone_reentered(1) } }
 harness! { fn c11b_ok_clone_outer_shared_reentry() unwind(4) { clone_reentered(2) } }
+
+// ---------------------------------------------------------------------------------------------
+// the EMPTY-archetype cells of the matrix: an access that touches no entity conflicts with nothing
+
+pub mod empty {
+    use crate::sym;
+    use crate::worlds::w3::*;
+    use crate::{cover, harness};
+    use gecs::prelude::*;
+
+    /// ArchTri is EMPTY (possibly emptied by destroys: arbitrary history), ArchOther has entities.
+    /// An outstanding guard on a column of the empty archetype does not make a borrow-style query
+    /// over it panic (it visits nothing there), and the query still visits the other archetype.
+    pub fn guard_on_empty_archetype(outer_mut: bool, inner: u8) {
+        use crate::model::*;
+        let mt: Model<2> = Model::any_inv();
+        let mo: Model<2> = Model::any_inv();
+        sym::assume(mt.len == 0 && mo.len == 2);
+        let mut world = W3::both(2, 2);
+        load_into::<Tri, 2>(&mut world, &mt);
+        load_into::<Other, 2>(&mut world, &mo);
+        let w = &world;
+        let mut n = 0;
+        if outer_mut {
+            let g = w.arch_tri.borrow_slice_mut::<P>();
+            match inner {
+                0 => ecs_iter_borrow!(w, |_p: &P| { n += 1; }),
+                1 => ecs_iter_borrow!(w, |_p: &mut P| { n += 1; }),
+                _ => ecs_iter_borrow!(w, |_e: &Entity<ArchTri>, _p: &mut P, _pad: &Pad| { n += 1; }),
+            }
+            assert!(g.len() == 0);
+        } else {
+            let g = w.arch_tri.borrow_slice::<P>();
+            match inner {
+                0 => ecs_iter_borrow!(w, |_p: &P| { n += 1; }),
+                1 => ecs_iter_borrow!(w, |_p: &mut P| { n += 1; }),
+                _ => ecs_iter_borrow!(w, |_e: &Entity<ArchTri>, _p: &mut P, _pad: &Pad| { n += 1; }),
+            }
+            assert!(g.len() == 0);
+        }
+        assert!(n == if inner < 2 { 2 } else { 0 }, "a borrow-style query over an empty archetype visited something or skipped the populated archetype");
+        cover!(true, "query over an empty archetype under an outstanding guard completed");
+        std::mem::forget(world);
+    }
+
+    /// Break in an EARLIER archetype: columns of LATER matched archetypes are never touched, so a
+    /// guard outstanding on one of them conflicts with nothing.
+    pub fn break_before_guarded_archetype(outer_mut: bool) {
+        use crate::model::*;
+        let mt: Model<2> = Model::any_inv();
+        let mo: Model<2> = Model::any_inv();
+        sym::assume(mt.len >= 1 && mo.len == 2);
+        let mut world = W3::both(2, 2);
+        load_into::<Tri, 2>(&mut world, &mt);
+        load_into::<Other, 2>(&mut world, &mo);
+        let w = &world;
+        let mut n = 0;
+        if outer_mut {
+            let g = w.arch_other.borrow_slice_mut::<P>();
+            ecs_iter_borrow!(w, |_p: &mut P| { n += 1; EcsStep::Break });
+            assert!(g.len() == 2);
+        } else {
+            let g = w.arch_other.borrow_slice::<P>();
+            ecs_iter_borrow!(w, |_p: &mut P| { n += 1; EcsStep::Break });
+            assert!(g.len() == 2);
+        }
+        assert!(n == 1, "Break did not end the query in the first archetype");
+        cover!(true, "query broke before reaching the guarded archetype");
+        std::mem::forget(world);
+    }
+
+    harness! { fn c11b_empty_outer_mut_inner_shared() unwind(4) { guard_on_empty_archetype(true, 0) } }
+    harness! { fn c11b_empty_outer_shared_inner_mut() unwind(4) { guard_on_empty_archetype(false, 1) } }
+    harness! { fn c11b_empty_outer_mut_inner_typed() unwind(4) { guard_on_empty_archetype(true, 2) } }
+    harness! { fn c11b_break_before_guarded_mut() unwind(4) { break_before_guarded_archetype(true) } }
+    harness! { fn c11b_break_before_guarded_shared() unwind(4) { break_before_guarded_archetype(false) } }
+}
